@@ -104,7 +104,19 @@ TH.axiom([_fl], SatI(_fl), z3.Implies(SatI(_fl), HoldAll(_fl, satw(_fl))), "SatI
 # ---------------------------------------------------------------------------
 # bounded quantifiers over positions as defined predicates
 # ---------------------------------------------------------------------------
-def defpred_all(name, sorts, length, body, trig):
+def _step_axiom(name, P, xs, body, conj):
+    """for a predicate whose LAST argument is the bound n: P(.., n) = P(.., n-1) (and / or) body(n-1) for n >= 1
+    (derived from elimination / introduction; unfolded one step per chain)"""
+    n = xs[-1]
+    prev = P(*xs[:-1], n - 1)
+    last = body(xs[:-1] + [n - 1] if False else xs, n - 1)
+    rhs = z3.And(prev, last) if conj else z3.Or(prev, last)
+    ax = TH.axiom(xs, P(*xs), z3.Implies(n >= 1, P(*xs) == rhs), f"{name}.step")
+    ax.max_chain = 1
+    return ax
+
+
+def defpred_all(name, sorts, length, body, trig, step=False):
     """P(xs)  <=>  forall k in [0, length(xs)): body(xs, k).
     elimination is triggered by P(xs) together with trig(xs, k)."""
     P = z3.Function(name, *sorts, Bool)
@@ -114,10 +126,12 @@ def defpred_all(name, sorts, length, body, trig):
     TH.axiom(xs + [k], [P(*xs), trig(xs, k)], z3.Implies(z3.And(P(*xs), 0 <= k, k < length(xs)), body(xs, k)), f"{name}.elim")
     w = W(*xs)
     TH.axiom(xs, P(*xs), z3.Implies(z3.Not(P(*xs)), z3.And(0 <= w, w < length(xs), z3.Not(body(xs, w)))), f"{name}.intro")
+    if step:
+        _step_axiom(name, P, xs, body, True)
     return P, W
 
 
-def defpred_some(name, sorts, length, body, trig):
+def defpred_some(name, sorts, length, body, trig, step=False):
     """P(xs)  <=>  exists k in [0, length(xs)): body(xs, k)."""
     P = z3.Function(name, *sorts, Bool)
     W = z3.Function(name + "!w", *sorts, Int)
@@ -126,6 +140,8 @@ def defpred_some(name, sorts, length, body, trig):
     TH.axiom(xs + [k], [P(*xs), trig(xs, k)], z3.Implies(z3.And(0 <= k, k < length(xs), body(xs, k)), P(*xs)), f"{name}.intro")
     w = W(*xs)
     TH.axiom(xs, P(*xs), z3.Implies(P(*xs), z3.And(0 <= w, w < length(xs), body(xs, w))), f"{name}.elim")
+    if step:
+        _step_axiom(name, P, xs, body, False)
     return P, W
 
 
